@@ -2,6 +2,7 @@ package core
 
 import (
 	"fmt"
+	"regexp"
 	"go/constant"
 	"go/token"
 	"go/types"
@@ -355,7 +356,7 @@ func condAtom(fr *Frame, env map[ssa.Value]Expr, cond ssa.Value) Atom {
 	case *ssa.BinOp:
 		switch c.Op {
 		case token.EQL, token.NEQ, token.LSS, token.LEQ, token.GTR, token.GEQ:
-			l, r := canon(fr, env, c.X, 0), canon(fr, env, c.Y, 0)
+			l, r := snapCanon(fr, env, c.X, c), snapCanon(fr, env, c.Y, c)
 			return MkAtom(l.S, c.Op.String(), r.S, mergeDeps(l.Deps, r.Deps...))
 		}
 	case *ssa.UnOp:
@@ -363,7 +364,101 @@ func condAtom(fr *Frame, env map[ssa.Value]Expr, cond ssa.Value) Atom {
 			return condAtom(fr, env, c.X).Neg()
 		}
 	}
-	return boolAtom(canon(fr, env, cond, 0))
+	return boolAtom(snapCanon(fr, env, cond, nil2user(cond)))
+}
+
+// nil2user finds the If instruction using a condition value (for the
+// freshness test of a load used directly as a condition).
+func nil2user(cond ssa.Value) ssa.Instruction {
+	if refs := cond.Referrers(); refs != nil {
+		for _, r := range *refs {
+			if _, ok := r.(*ssa.If); ok {
+				return r
+			}
+		}
+	}
+	return nil
+}
+
+// SnapMark introduces the identity of a register snapshot in an atom: a value
+// loaded earlier and tested later (`n := x.f; ...; if n > 0`) is named
+// x.f'@id and never invalidated, so that repeated tests of the same register
+// correlate while fresh loads of x.f do not.
+const SnapMark = "'"
+
+var reSnap = regexp.MustCompile(`'@[^ .,)\]]*`)
+
+// Plain strips snapshot identities from a canonical string.
+func Plain(s string) string {
+	if !strings.Contains(s, SnapMark) {
+		return s
+	}
+	return reSnap.ReplaceAllString(s, "")
+}
+
+// isSnapshotLoad reports whether the load u, used by instruction user, holds
+// a register copy (used more than once, defined in another block, or with a
+// store/call between it and its use).
+func isSnapshotLoad(u *ssa.UnOp, user ssa.Instruction) bool {
+	if u.Op != token.MUL {
+		return false
+	}
+	if _, isAlloc := u.X.(*ssa.Alloc); isAlloc {
+		return false
+	}
+	if refs := u.Referrers(); refs != nil && len(*refs) >= 2 {
+		return true
+	}
+	if user == nil || u.Block() != user.Block() {
+		return true
+	}
+	seen := false
+	for _, ins := range u.Block().Instrs {
+		if ins == ssa.Instruction(u) {
+			seen = true
+			continue
+		}
+		if !seen {
+			continue
+		}
+		if ins == user {
+			break
+		}
+		switch ins.(type) {
+		case *ssa.Store, *ssa.Call, *ssa.MapUpdate:
+			return true
+		}
+	}
+	return false
+}
+
+// snapCanon is canon for operands of a condition: snapshot loads are named by
+// their register identity.
+func snapCanon(fr *Frame, env map[ssa.Value]Expr, v ssa.Value, user ssa.Instruction) Expr {
+	if _, ok := env[v]; ok {
+		return canon(fr, env, v, 0)
+	}
+	switch x := v.(type) {
+	case *ssa.UnOp:
+		if x.Op == token.MUL && isSnapshotLoad(x, user) {
+			e := canon(fr, env, x, 0)
+			return Expr{S: e.S + SnapMark + fr.vid(x)}
+		}
+	case *ssa.Convert:
+		a := snapCanon(fr, env, x.X, x)
+		if _, ok := a.IsConstInt(); ok {
+			return a
+		}
+		return Expr{S: shortType(x.Type()) + "(" + a.S + ")", Deps: a.Deps}
+	case *ssa.ChangeType:
+		return snapCanon(fr, env, x.X, x)
+	case *ssa.BinOp:
+		if _, isC := x.Y.(*ssa.Const); isC {
+			a, b := snapCanon(fr, env, x.X, x), canon(fr, env, x.Y, 0)
+			return Expr{S: "(" + a.S + " " + x.Op.String() + " " + b.S + ")", Deps: a.Deps}
+		}
+	}
+	return canon(fr, env, v, 0)
 }
 
 func boolAtom(e Expr) Atom {
@@ -466,9 +561,30 @@ func (f *Facts) killField(k FieldKey) {
 // instruction or of a re-entered frame).
 func (f *Facts) killMention(sub string) {
 	for s := range f.m {
-		if strings.Contains(s, sub) {
+		if mentions(s, sub) {
 			delete(f.m, s)
 		}
+	}
+}
+
+// mentions reports whether s contains sub as a whole id token (t1 must not
+// match t16). Substrings ending in ':' or '/' are prefixes by intent.
+func mentions(s, sub string) bool {
+	if sub == "" {
+		return false
+	}
+	last := sub[len(sub)-1]
+	prefix := last == ':' || last == '/'
+	for i := 0; ; {
+		j := strings.Index(s[i:], sub)
+		if j < 0 {
+			return false
+		}
+		end := i + j + len(sub)
+		if prefix || end >= len(s) || s[end] < '0' || s[end] > '9' {
+			return true
+		}
+		i = i + j + 1
 	}
 }
 
@@ -617,6 +733,20 @@ func (f *Facts) Implies(a Atom) bool {
 		return true
 	}
 	return f.Contradicts(a.Neg())
+}
+
+// HasPlain reports whether an atom with this text is present, ignoring
+// snapshot identities.
+func (f *Facts) HasPlain(s string) bool {
+	if _, ok := f.m[s]; ok {
+		return true
+	}
+	for k := range f.m {
+		if Plain(k) == s {
+			return true
+		}
+	}
+	return false
 }
 
 // HasText reports whether an atom with exactly this text is present.
